@@ -2,8 +2,9 @@
 // of the spectrum the rule is documented to act on (A's own spectrum, or nu(lambda) in the shift modes).
 // Spectra are prescribed by construction with keys spaced >= 1 % of the key spread; three regimes (DESIGN 6/C04):
 //   R1  ncv = n                      exactly decidable, asserted strictly for every family and every rule
-//   R2  ncv < n, exterior target, symmetric / Hermitian / generalized families: asserted strictly
-//   R3  ncv < n and (general family | interior target | wanted eigenvalue exactly zero of a singular matrix):
+//   R2  ncv < n, one-ended (exterior) target, symmetric / Hermitian / generalized families: asserted strictly
+//   R3  ncv < n and (general family | interior target = SmallestMagn on a sign-indefinite spectrum | two-ended magnitude target =
+//       LargestMagn on a sign-indefinite spectrum | wanted eigenvalue exactly zero of a singular matrix):
 //       a wrong set made only of genuine, distinct eigenvalues is finding D13 `krylov_misconvergence`
 // One translation unit per real scalar type (VF_REAL) and family group: C04_PLAIN = the six standard-problem solvers (user functor
 // operators from vf/families.hpp), C04_GENERALIZED = the five generalized modes (library wrappers), C04_CONTRIB = Davidson / PartialSVD /
@@ -958,15 +959,19 @@ static void krylov_case(vf::Draw& d, vf::Case& c, int fam)
             has_neg = true;
     }
     const bool interior = !general && P.rule == 4 && has_pos && has_neg;
+    // LargestMagn on a sign-indefinite real spectrum is a two-ended target: how many of the nev values come from each end is decided by
+    // comparing magnitudes across the ends, and the Ritz value at the other end is neither wanted nor tested while it is still smaller
+    const bool two_sided = !general && P.rule == 0 && has_pos && has_neg;
     bool zero_wanted = false;
     if (P.singular)
         for (size_t j : wanted_set(R.keys, P.rule, P.nev))
             if (std::abs(R.lam[j]) <= 64 * (ld) n * EPS * R.lammax)
                 zero_wanted = true;
-    std::string regime = P.r1 ? "R1" : ((general || interior || zero_wanted) ? "R3" : "R2");
+    std::string regime = P.r1 ? "R1" : ((general || interior || two_sided || zero_wanted) ? "R3" : "R2");
     c.feat["ncv_lt_n"] = P.ncv < n ? 1 : 0;
     c.feat["general_family"] = general ? 1 : 0;
     c.feat["interior_target"] = interior ? 1 : 0;
+    c.feat["two_sided_magnitude_target"] = two_sided ? 1 : 0;
     c.feat["singular_class"] = P.singular ? 1 : 0;
     c.feat["krylov"] = 1;
     c.sfeat["regime"] = regime;
@@ -1081,6 +1086,8 @@ static void krylov_case(vf::Draw& d, vf::Case& c, int fam)
         c.cls(std::string("singular_class/") + regime + (zero_wanted ? "/zero_wanted" : "/zero_not_wanted"));
     if (interior)
         c.cls("interior_target/" + regime);
+    if (two_sided)
+        c.cls("two_sided_magnitude_target/" + regime);
     const ld tolv = std::max((ld) 1e-6 * R.spread, 100 * tol * R.numax);
     if (check_selection(R, P.rule, P.nev, o, tolv, P.singular, c, regime, FAM_NAMES[fam]))
     {
@@ -1358,6 +1365,8 @@ static void run_case(vf::Draw& d, vf::Case& c)
     int total = 0;
     for (int f = 0; f < F_COUNT; f++)
         total += W[f];
+    // the scalar type takes part in the case identity (the units share seeds, so that the same recipe runs in all three precisions)
+    d.range("scalar_type_tag", (long) sizeof(Real), (long) sizeof(Real));
     long w = d.range("family_weighted", 0, total - 1);
     int fam = 0;
     for (int f = 0; f < F_COUNT; f++)
@@ -1385,14 +1394,15 @@ static void run_case(vf::Draw& d, vf::Case& c)
 #endif
 }
 
-// D13 `krylov_misconvergence`: regime R3 only (restarted Krylov process with ncv < n and: general family, or interior target, or the missing
+// D13 `krylov_misconvergence`: regime R3 only (restarted Krylov process with ncv < n and: general family, or interior target, or LargestMagn
+// on a sign-indefinite spectrum (the more-wanted eigenvalue sits at the other end, whose Ritz value is not tested), or the missing
 // eigenvalues are exactly-zero eigenvalues of a singular matrix, which Arnoldi::init() removes from the start vector), and every returned
 // value is a genuine, distinct reference eigenvalue. Anything else (a value that is not an eigenvalue, a duplicate, ncv = n, an exterior
 // target in the symmetric / Hermitian / generalized families) stays a violation.
 static std::string match(const vf::Violation& v, const vf::Case& c)
 {
     if (v.kind == "not_the_selected_set" && c.f("krylov") == 1 && c.f("ncv_lt_n") == 1 && c.f("all_genuine") == 1 &&
-        (c.f("general_family") == 1 || c.f("interior_target") == 1 || (c.f("singular_class") == 1 && c.f("missed_only_zero") == 1)))
+        (c.f("general_family") == 1 || c.f("interior_target") == 1 || c.f("two_sided_magnitude_target") == 1 || (c.f("singular_class") == 1 && c.f("missed_only_zero") == 1)))
         return "krylov_misconvergence";
     return "";
 }
